@@ -16,7 +16,7 @@ pub fn run(thorough: bool) -> Vec<Part> {
             WCfg { label: "3 enqueues, bodies 5/300, every length".into(), bodies: vec![5, 300], max_enqueues: 3, all_lengths: true },
             WCfg { label: "6 enqueues, bodies 0/5, every length".into(), bodies: vec![0, 5], max_enqueues: 6, all_lengths: false },
             WCfg { label: "2 enqueues, bodies 5/8192, every length".into(), bodies: vec![5, 8192], max_enqueues: 2, all_lengths: true },
-            WCfg { label: "4 enqueues, bodies 5/300/8192, boundary lengths".into(), bodies: vec![5, 300, 8192], max_enqueues: 4, all_lengths: false },
+            WCfg { label: "3 enqueues, bodies 5/300/8192, boundary lengths".into(), bodies: vec![5, 300, 8192], max_enqueues: 3, all_lengths: false },
         ]
     } else {
         vec![
